@@ -99,4 +99,13 @@ def pagesHit (firstRows : List Nat) (pos : List Nat) : List Nat :=
        | some nx => decide (p < nx)
        | none => true)))
 
+/-- the bitmap denoted by ascending, non-overlapping ranges `(start, end)` over `total` rows,
+read left to right from row `lastEnd`: rows between ranges are unselected, rows inside are
+selected, empty ranges are ignored -/
+def rangesBits (total : Nat) : List (Nat × Nat) → Nat → List Bool
+  | [], lastEnd => List.replicate (total - lastEnd) false
+  | (st, en) :: r, lastEnd =>
+    if en - st = 0 then rangesBits total r lastEnd
+    else List.replicate (st - lastEnd) false ++ (List.replicate (en - st) true ++ rangesBits total r en)
+
 end ArrowModel.C06.Spec
